@@ -301,3 +301,10 @@ package dns
 //@ extern strings.ReplaceAll
 //@   ensures doubled: len(old) == 1 && old[0] == '\\' && len(new) == 2 && new[0] == '\\' && new[1] == '\\' ==> unitsfrom(ret0, 0) == len(s)
 //@   pure
+
+// strings.TrimSuffix: s without the trailing suffix string when s ends in it, else s (documented behaviour; trusted)
+//@ extern strings.TrimSuffix
+//@   ensures issub(ret0, s) && start(ret0, s) == 0
+//@   ensures cut: len(s) >= len(suffix) && (forall k in 0..len(suffix) :: s[len(s) - len(suffix) + k] == suffix[k]) ==> len(ret0) == len(s) - len(suffix)
+//@   ensures keep: !(len(s) >= len(suffix) && (forall k in 0..len(suffix) :: s[len(s) - len(suffix) + k] == suffix[k])) ==> len(ret0) == len(s)
+//@   pure
